@@ -542,6 +542,7 @@ func (u *Unmarshaler) processAnonymousStructFieldOptional(fieldType reflect.Type
 	var filled bool
 	var required int
 	var requiredFilled int
+	var defaulted []int
 	var indirectValue reflect.Value
 	derefedFieldType := Deref(fieldType)
 
@@ -563,7 +564,13 @@ func (u *Unmarshaler) processAnonymousStructFieldOptional(fieldType reflect.Type
 				return err
 			}
 		}
-		if !fieldOpts.optional() {
+		if _, hasDefault := fieldOpts.getDefault(); hasDefault {
+			// a member with a default value never has to be provided,
+			// the default is filled below if the struct is set at all.
+			if !hasValue {
+				defaulted = append(defaulted, i)
+			}
+		} else if !fieldOpts.optional() {
 			required++
 			if hasValue {
 				requiredFilled++
@@ -571,8 +578,18 @@ func (u *Unmarshaler) processAnonymousStructFieldOptional(fieldType reflect.Type
 		}
 	}
 
-	if filled && required != requiredFilled {
+	if !filled {
+		return nil
+	}
+
+	if required != requiredFilled {
 		return fmt.Errorf("%q is not fully set", key)
+	}
+
+	for _, i := range defaulted {
+		if err := u.processField(derefedFieldType.Field(i), indirectValue.Field(i), m, fullName); err != nil {
+			return err
+		}
 	}
 
 	return nil
